@@ -156,6 +156,48 @@ def main(run):
     for r in (True, False):
         ob(f'radical-accepted[{r}]', by_z[6][0](is_radical=r).is_radical is r)
 
+    # clause 3, executed: every element x tabulated isotope (neutral) and every charge x radical state (no isotope) survives the real codec
+    # (de-cythonised pack / unpack through the real wrappers) and is matched by the compiled matcher exactly like by the Python matcher
+    env.setup(pyx=True)
+    from chython.containers import MoleculeContainer
+    from chython.periodictable import QueryElement
+    from chython.containers import QueryContainer
+    bad_pack, bad_match, n_pack = [], [], 0
+    for z in range(1, 119):
+        cls = by_z[z][0]
+        states = [(i, 0, False) for i in sorted(cls().isotopes_distribution)] + [(None, c, r) for c in range(-4, 5) for r in (False, True)]
+        for iso, c, r in states:
+            m = MoleculeContainer()
+            try:
+                a = cls(iso, charge=c, is_radical=r, implicit_hydrogens=0)
+            except Exception:
+                continue
+            m.add_atom(a, _skip_calculation=True)
+            m.calc_labels()
+            n_pack += 1
+            try:
+                u = MoleculeContainer.unpack(m.pack())
+                b = u.atom(1)
+                if (b.atomic_number, b.isotope, b.charge, b.is_radical, b.implicit_hydrogens) != (z, iso, c, r, 0):
+                    bad_pack.append((cls.__name__, iso, c, r, (b.atomic_number, b.isotope, b.charge, b.is_radical)))
+            except Exception as e:
+                bad_pack.append((cls.__name__, iso, c, r, repr(e)))
+            if z < 116:     # Lv/Ts/Og share one matcher bit (documented, C09 known finding)
+                for qiso, qc, qr in ((iso, c, r), (None, c, r), (iso, c, not r)):
+                    q = QueryContainer('')
+                    q.add_atom(QueryElement.from_atomic_number(z)(qiso, charge=qc, is_radical=qr))
+                    try:
+                        fast = len(list(q.get_mapping(m)))
+                        slow = len(list(q.get_mapping(m, _cython=False)))
+                    except Exception as e:
+                        fast, slow = repr(e), None
+                    if fast != slow:
+                        bad_match.append((cls.__name__, iso, c, r, (qiso, qc, qr), fast, slow))
+    ob(f'pack-codec-roundtrip[all elements x tabulated isotopes, charges -4..4 x radical: {n_pack} atoms]', not bad_pack, key='pack-codec-roundtrip',
+       what=f'single atom does not survive pack/unpack: {bad_pack[:3]}', witness=bad_pack[:5])
+    ob(f'matcher-layout-agrees[all elements < 116 x tabulated isotopes x charges x radical]', not bad_match, key='matcher-layout-executed',
+       what=f'compiled matcher and Python matcher disagree on a single atom: {bad_match[:3]}', witness=bad_match[:5])
+
     run.assume('isotope representability is judged against the published layouts: 5-bit pack code 1..31 relative to common_isotopes; '
                'matcher word III bits 46..62 relative to mdl_isotope',
                'abundance tables of synthetic elements may be a single 1.0 entry; sums are accepted within 1e-3')
